@@ -1,4 +1,4 @@
-\* every registered scalar activation type on the output and on the hidden node (all 400 combinations)
+\* every registered scalar activation type on the output and on the hidden node (all 441 combinations, incl. a user-registered type)
 SPECIFICATION Spec
 CONSTANTS
   PopStartNewline = TRUE
@@ -12,7 +12,7 @@ CONSTANTS
   MaxOutputs = 1
   MinHidden = 1
   MaxHidden = 1
-  Acts = {1, 2, 3, 4, 5, 6, 7, 8, 9, 10, 11, 12, 13, 14, 15, 16, 17, 18, 19, 20}
+  Acts = {1, 2, 3, 4, 5, 6, 7, 8, 9, 10, 11, 12, 13, 14, 15, 16, 17, 18, 19, 20, 24}
   NodeTraitFree = FALSE
   MaxGenes = 1
   PairSet = {13, 32}
